@@ -9,7 +9,7 @@ use crate::rng::{hash64, Rng};
 use serde_json::json;
 
 pub fn workload(ctx: &Ctx, which: Which, base: u64, per_shard: usize, runs: usize) -> Acc {
-    run_sharded(ctx.jobs, |shard| {
+    run_sharded(ctx, |shard| {
         let mut acc = Acc::new();
         for k in 0..per_shard {
             let mut rng = Rng::derive(ctx.seed, base + shard as u64, k as u64);
@@ -79,7 +79,7 @@ pub fn run(ctx: &Ctx) -> i32 {
     );
     rep.assume("an execution stops contributing once a callee breaks sp / saved registers / its frame bounds (C01's premise)");
     rep.assume("claims on instructions no execution reaches are not judged");
-    let per_shard = ctx.tier.pick(40, 2500);
+    let per_shard = ctx.tier.pick(150, 2500);
     let runs = ctx.tier.pick(4, 8);
     let acc = workload(ctx, Which::C01, 1_000, per_shard, runs);
     rep.acc.merge(acc);
